@@ -3,7 +3,7 @@ CONSTANTS
   Forms = {"rel", "abs"}
   Offs = {0, 2}
   Lens = {3}
-  MaxOps = 9
+  MaxOps = 7
   KeepHist = TRUE
 VIEW gview
 CONSTRAINT CoverBound
